@@ -90,7 +90,7 @@ class BaseElementLocator
 
     void resize(std::size_t new_size, std::byte* memory_begin) noexcept
     {
-        last_element_ = element_address(new_size, memory_begin);
+        last_element_ = new_size == 0 ? memory_begin : element_address(new_size, memory_begin);
         element_addresses_.resize_from_capacity(new_size);
     }
 
